@@ -119,26 +119,45 @@ Definition is_phi_e (e : expr) : bool := match e with EPhi _ _ => true | _ => fa
 Definition phi_block_of (c : cfg) (x : vname) (b : block) : Prop :=
   In b (c_blocks c) /\ exists m op args k sv st, In (SSubst m x op (EPhi args k) sv st) (b_stmts b).
 
-(* A phi copies, for every valuation, one of its arguments.  WHICH one is decided by
-   the branch condition Propagate.deciding names for the block (a loop header: its own
-   condition; another join: the condition ending its immediate dominator; a block with
-   fewer than two predecessors: nothing to decide): the choice [pick] may depend on the
-   valuation only if that condition, as a function of the valuation in the current
-   store, does (in SSA form the current store holds the operands of the condition's
-   last evaluation, which is the one that decided the edge; before its first
-   evaluation - the first entry of a loop - the choice is fixed).  When no condition can
-   be named the choice is unconstrained. *)
+(* CONTROL DEPENDENCE, stated here without reference to the analysis (Model.Propagate
+   has its own function; Proofs.DegGraphProofs relates the two).  [idom] is the
+   immediate-dominator table of the graph (C15).  Block [q] is ABOVE block [p] below
+   the dominator [stop] when walking up the dominator tree from p reaches q before
+   passing stop. *)
+Inductive above (idom : list (option N)) (stop : option N) : N -> N -> Prop :=
+| ab_here p : above idom stop p p
+| ab_up p d q : Some p <> stop -> nth_error idom (N.to_nat p) = Some (Some d) -> above idom stop d q ->
+                above idom stop p q.
+
+(* the branch conditions that can decide along which edge block j is entered: those
+   ending a block between the immediate dominator of j and one of its predecessors
+   (in the graphs lifting produces every branching block of that region dominates a
+   predecessor of j; an assumption of this semantics, exercised by the path audit of
+   the check) *)
+Definition decides (c : cfg) (idom : list (option N)) (j : block) (cond : expr) : Prop :=
+  exists p q bq m t f,
+    In p (b_preds j) /\
+    above idom (match nth_error idom (N.to_nat (b_index j)) with Some o => o | None => None end) p q /\
+    nth_error (c_blocks c) (N.to_nat q) = Some bq /\
+    last (b_stmts bq) (SLog m []) = SIf m cond t f.
+
+(* A phi copies, for every valuation, one of its arguments.  WHICH one is decided by the
+   branch conditions [decides] names: the choice [pick] may depend on the valuation
+   only if one of them, as a function of the valuation in the current store, does (in
+   SSA form the current store holds the operands of a condition's last evaluation,
+   which is the one that decided; a condition not evaluated yet - the first entry of a
+   loop, an inner condition on a path that bypasses it - does not vary).  A block
+   with fewer than two predecessors has nothing to decide. *)
+Definition cond_fixed (s : fstore) (cond : expr) : Prop :=
+  match den s cond with
+  | Some C => forall r r', C [] r = C [] r'
+  | None => True
+  end.
+
 Definition pick_ok (c : cfg) (idom : list (option N)) (s : fstore) (x : vname) (pick : V -> vname) : Prop :=
   forall b, phi_block_of c x b ->
-    match deciding (c_blocks c) idom b with
-    | DecNone => forall r r', pick r = pick r'
-    | DecCond cond =>
-      match den s cond with
-      | Some C => (forall r r', C [] r = C [] r') -> forall r r', pick r = pick r'
-      | None => forall r r', pick r = pick r'      (* not evaluated yet: the first entry of a loop *)
-      end
-    | DecOpaque => True
-    end.
+    ((length (b_preds b) < 2)%nat \/ forall cond, decides c idom b cond -> cond_fixed s cond) ->
+    forall r r', pick r = pick r'.
 
 Definition phi_fam (s : fstore) (pick : V -> vname) : fam :=
   fun i rho => match s (pick rho) with Some G => G i rho | None => 0 end.
